@@ -459,6 +459,7 @@ pub fn gen_pipe_case(rng: &mut Rng, p: &Profile) -> PipeCase {
             eintr_pm: *rng.pick(&[0u16, 50, 300]),
             seed: rng.next_u64(),
             fail: None,
+            commit_on_flush: false,
         }
     } else {
         SinkFaults::default()
